@@ -37,10 +37,10 @@ STREAMS = {
 BUDGET = {   # stream -> (quick: chunks, per chunk), (thorough: chunks, per chunk)
     'flat': ((12, 60), (48, 190)),
     'flat-clash': ((4, 60), (16, 130)),
-    'hsm': ((12, 12), (48, 50)),
-    'hsm-custom-sep': ((4, 10), (16, 36)),
-    'hsm-remove': ((4, 12), (16, 34)),
-    'hsm-enum': ((4, 10), (16, 28)),
+    'hsm': ((12, 12), (48, 40)),
+    'hsm-custom-sep': ((4, 10), (16, 28)),
+    'hsm-remove': ((4, 12), (16, 26)),
+    'hsm-enum': ((4, 10), (16, 22)),
 }
 
 
